@@ -252,13 +252,6 @@ theorem scanGo_val (holes : Bool) (v : PVal) (hv : v.wf = true) (T : Str)
     cases neg
     · simpa [renderVal, valPieces] using scanGo_plain holes body hv.2 T
     · simpa [renderVal, valPieces] using scanGo_neg holes body hne hv.2 T
-  | word w =>
-    simp only [PVal.wf, Bool.and_eq_true] at hv
-    simpa [renderVal, valPieces] using scanGo_plain holes w hv.2 T
-  | negWord w =>
-    simp only [PVal.wf, Bool.and_eq_true, Bool.not_eq_true'] at hv
-    have hne : w ≠ [] := by intro h; simp [h] at hv
-    simpa [renderVal, valPieces] using scanGo_neg holes w hne hv.2 T
   | str s =>
     have := scanGo_str holes s T (hT rfl)
     simpa [renderVal, valPieces] using this
@@ -267,5 +260,83 @@ theorem scanGo_val (holes : Bool) (v : PVal) (hv : v.wf = true) (T : Str)
     · simpa [renderVal, valPieces] using scanGo_plain holes "FALSE".toList plainRun_kw.2.1 T
     · simpa [renderVal, valPieces] using scanGo_plain holes "TRUE".toList plainRun_kw.1 T
   | null => simpa [renderVal, valPieces] using scanGo_plain holes "NULL".toList plainRun_kw.2.2 T
+
+/-! ### the substitution scanner follows the lexer's modes -/
+
+/-- quote characters recorded in a mode really are quote characters -/
+def modeOk : Mode → Prop
+  | .inq q _ => isQuote q = true
+  | .qq q _ => isQuote q = true
+  | _ => True
+
+theorem modeOk_next (m : Mode) (c : Char) (h : modeOk m) : modeOk (nextMode m c) := by
+  cases m <;> simp only [nextMode, codeNext] <;> (repeat' split) <;> simp_all [modeOk]
+
+theorem stepMode_mode (holes : Bool) (m : Mode) (c : Char) (ps : List Piece) (m' : Mode)
+    (h : stepMode holes m c = .ok (ps, m')) : m' = nextMode m c := by
+  have hn : (normStep holes c).2 = codeNext c := by
+    simp only [normStep, codeNext]
+    (repeat' split) <;> rfl
+  cases m with
+  | norm =>
+    simp only [stepMode, Except.ok.injEq] at h
+    rw [h] at hn
+    simp only [nextMode]
+    exact hn
+  | dash =>
+    simp only [stepMode] at h
+    split at h
+    · rename_i hc; injection h with h; injection h with _ h2; simp [nextMode, hc, h2]
+    · rename_i hc; injection h with h; injection h with _ h2; simp [nextMode, hc, ← h2, hn]
+  | comment => simp only [stepMode] at h; injection h with h; injection h with _ h2; simp [nextMode, h2]
+  | inq q acc =>
+    simp only [stepMode] at h
+    split at h <;> (rename_i hc; injection h with h; injection h with _ h2; simp [nextMode, hc, h2])
+  | qq q acc =>
+    simp only [stepMode] at h
+    split at h
+    · rename_i hc; injection h with h; injection h with _ h2; simp [nextMode, hc, h2]
+    · rename_i hc
+      cases hcl : closeQuoted q acc with
+      | error e => simp [hcl] at h
+      | ok pc =>
+        simp only [hcl] at h
+        injection h with h; injection h with _ h2
+        simp [nextMode, hc, ← h2, hn]
+
+/-- outside code position a `?` is an ordinary character for the scanner as well -/
+theorem stepMode_q_inert (m : Mode) (hm : placeholderAllowed m = false) :
+    stepMode true m '?' = stepMode false m '?' := by
+  cases m <;> simp_all [placeholderAllowed, stepMode]
+
+theorem allowed_codeMode (m : Mode) (hok : modeOk m) (h : placeholderAllowed m = true) :
+    codeMode m = true := by
+  cases m with
+  | qq q acc =>
+    simp only [modeOk] at hok
+    simp only [codeMode, decide_eq_true_eq]
+    intro hq; subst hq; simp [isQuote] at hok
+  | norm => rfl
+  | dash => rfl
+  | comment => simp [placeholderAllowed] at h
+  | inq q acc => simp [placeholderAllowed] at h
+
+theorem leaves_space (m : Mode) (hok : modeOk m) : leaves m ' ' = true := by
+  cases m with
+  | qq q acc =>
+    simp only [modeOk] at hok
+    simp only [leaves, decide_eq_true_eq]
+    intro hq; subst hq; simp [isQuote] at hok
+  | dash => decide
+  | norm => rfl
+  | comment => rfl
+  | inq q acc => rfl
+
+/-- a blank in code position produces nothing -/
+theorem scanGo_space (holes : Bool) (X : Str) : scanGo holes .norm (' ' :: X) = scanGo holes .norm X := by
+  rw [scanGo_cons]
+  simp only [stepMode, normStep, show isQuote ' ' = false by decide, show (' ' = '-') = False by decide,
+    show isWs ' ' = true by decide, Bool.false_eq_true, if_false, if_true, Except.bind]
+  exact emap_nil _
 
 end VibeProof.Text.Bind
